@@ -3,13 +3,10 @@ opaque_types!(Ed25519KeyHash, ScriptHash, ByronAddress);
 pub struct BigNum(pub u64);
 impl From<BigNum> for u64 { #[verifier::external_body] fn from(v: BigNum) -> (r: u64) ensures r == v.0 { unimplemented!() } }
 impl vstd::std_specs::convert::FromSpecImpl<BigNum> for u64 { open spec fn obeys_from_spec() -> bool { true } open spec fn from_spec(v: BigNum) -> u64 { v.0 } }
-/// raw hash bytes of a credential (28 bytes: hash_types) and the variable-length naturals of a pointer (Kani: varnat harnesses): opaque here
-pub uninterp spec fn cred_raw(c: Credential) -> Seq<u8>;
+/// raw bytes of a credential = the bytes of the hash it wraps (Credential::to_raw_bytes is proved on its real text below; the hash types' to_bytes: unit hash_types); the variable-length naturals of a pointer: opaque here (unit varnat)
+pub open spec fn cred_raw(c: Credential) -> Seq<u8> { match c.0 { CredType::Key(h) => h.bytes_of(), CredType::Script(h) => h.bytes_of() } }
 pub uninterp spec fn varnat(n: u64) -> Seq<u8>;
 #[verifier::external_body] pub fn variable_nat_encode(num: u64) -> (r: Vec<u8>) ensures r@ == varnat(num) { unimplemented!() }
-impl Credential {
-    #[verifier::external_body] pub fn to_raw_bytes(&self) -> (r: Vec<u8>) ensures r@ == cred_raw(*self) { unimplemented!() }
-}
 impl CredKind {
     /// `kind as u8` of the field-less enum CredKind { Key, Script }: 0 / 1 (implicit discriminants; R-enumcast)
     #[verifier::external_body] pub fn as_u8_(self) -> (r: u8) ensures r == (if self is Script { 1u8 } else { 0u8 }) { unimplemented!() }
